@@ -181,7 +181,8 @@ class FileResponse(StreamResponse):
         self, request: "BaseRequest"
     ) -> AbstractStreamWriter | None:
         self.set_status(HTTPPreconditionFailed.status_code)
-        self.content_length = 0
+        if not self._chunked:
+            self.content_length = 0
         return await super().prepare(request)
 
     def _make_response(
